@@ -1746,7 +1746,11 @@ def unroll_literal_loops(tree: ast.AST):
                         else:
                             ok = False
                             break
-                        if not all(isinstance(v_, (ast.Name, ast.Constant, ast.Attribute)) for v_ in mapping.values()):
+                        def _n_loads(nm):
+                            return sum(1 for b in st.body for x in ast.walk(b) if isinstance(x, ast.Name) and x.id == nm and isinstance(x.ctx, ast.Load))
+                        # plain values are substituted freely; a call (e.g. a constructor) only where the variable is read once
+                        if not all(isinstance(v_, (ast.Name, ast.Constant, ast.Attribute)) or (isinstance(v_, ast.Call) and _n_loads(k_) <= 1) or (isinstance(v_, ast.UnaryOp) and isinstance(v_.operand, ast.Constant))
+                                   for k_, v_ in mapping.items()):
                             ok = False
                             break
                         try:
